@@ -52,11 +52,13 @@ with query :=
 (* ---------------- rendering context ---------------- *)
 Record kctx := {
   kc : ctx;          (* the keyword arguments Terms.render understands *)
-  k_abs : bool;      (* secondary_quote_char / alias_quote_char / as_keyword are ABSENT (below a function call) *)
-  k_gba : bool       (* groupby_alias (Oracle / MSSQL force False and pass it down) *)
+  k_abs : bool;      (* secondary_quote_char / alias_quote_char / as_keyword / query_alias_quote_char are ABSENT
+                        (a term rendered outside any statement) *)
+  k_gba : bool;      (* groupby_alias (Oracle / MSSQL switch it off in _set_kwargs_defaults; it is handed down) *)
+  k_qaq : option string   (* query_alias_quote_char: the quote of SUB-QUERY aliases, a convention of the outermost class *)
 }.
-Definition mk_k (c : ctx) (a g : bool) : kctx := {| kc := c; k_abs := a; k_gba := g |}.
-Definition with_c (k : kctx) (c : ctx) : kctx := mk_k c (k_abs k) (k_gba k).
+Definition mk_k (c : ctx) (a g : bool) (qa : option string) : kctx := {| kc := c; k_abs := a; k_gba := g; k_qaq := qa |}.
+Definition with_c (k : kctx) (c : ctx) : kctx := mk_k c (k_abs k) (k_gba k) (k_qaq k).
 Definition set_wn (c : ctx) (b : bool) : ctx :=
   {| q := q c; sq := sq c; aq := aq c; askw := askw c; dia := dia c; wa := wa c; wn := b; subq := subq c; subc := subc c |}.
 Definition set_aq (c : ctx) (a : option string) : ctx :=
@@ -67,9 +69,10 @@ Definition set_dia (c : ctx) (a : option dialect) : ctx :=
   {| q := q c; sq := sq c; aq := aq c; askw := askw c; dia := a; wa := wa c; wn := wn c; subq := subq c; subc := subc c |}.
 
 (* str(query): get_sql(dialect=self.dialect) with every other key absent: the class defaults apply *)
+Definition qalias_quote (c : cls) : option string := match cls_qaq c with None => cls_aq c | Some qa => Some qa end.
 Definition top_ctx (c : cls) : kctx :=
   mk_k {| q := cls_q c; sq := cls_sq c; aq := cls_aq c; askw := cls_askw c; dia := cls_dia c; wa := false; wn := false;
-          subq := false; subc := false |} false (cls_gba c).
+          subq := false; subc := false |} false (cls_gba c) (qalias_quote c).
 
 (* _set_kwargs_defaults of class [c] applied to incoming kwargs [k]: only the absent keys are filled.
    quote_char and dialect are always present in nested calls (Function.get_sql forwards them). *)
@@ -79,7 +82,7 @@ Definition defaults (c : cls) (k : kctx) : kctx :=
                then {| q := q base; sq := cls_sq c; aq := cls_aq c; askw := cls_askw c; dia := dia base; wa := wa base;
                        wn := wn base; subq := subq base; subc := subc base |}
                else base in
-  mk_k base' false (if cls_gba c then k_gba k else false).
+  mk_k base' false (if cls_gba c then k_gba k else false) (if k_abs k then qalias_quote c else k_qaq k).
 
 (* ---------------- tables ---------------- *)
 Definition schema_sql (qc : option string) (chain : list string) : string := join "." (map (fq qc) chain).
@@ -123,24 +126,36 @@ Fixpoint name_from (own : nat) (l : list source) : list (option string) * nat :=
       end
   | _ :: r => let (r', n) := name_from own r in (None :: r', n)
   end.
-(* do_join: an un-aliased Table that is already among the base tables (FROM items / UPDATE target) gets the
-   alias name ++ "2" written onto it ("FIXME only works once" in the source) *)
-Fixpoint name_joins (base : list tref) (own : nat) (l : list (jhow * source * jcond)) : list (option string) * nat :=
+(* do_join: an un-aliased Table that is already among the base tables (FROM items / UPDATE target) gets the first
+   free numbered alias name2, name3, ... (with respect to the names of the FROM items, the UPDATE target, the WITH
+   queries and the joins made so far) written onto it; an un-aliased sub-query or set operation is tagged sq<own>.
+   [taken]: the names in use so far. *)
+Fixpoint first_free_aux (nm : string) (taken : list string) (fuel n : nat) : string :=
+  let cand := nm ++ nat_to_string n in
+  match fuel with
+  | O => cand
+  | S f => if existsb (String.eqb cand) taken then first_free_aux nm taken f (S n) else cand
+  end.
+Definition first_free (nm : string) (taken : list string) : string := first_free_aux nm taken (List.length taken) 2.
+
+Fixpoint name_joins (base : list tref) (taken : list string) (own : nat) (l : list (jhow * source * jcond))
+  : list (option string) * nat :=
   match l with
   | [] => ([], own)
   | (_, SrcQ x, _) :: r =>
-      match qalias x, x with
-      | Some a, _ => let (r', n) := name_joins base own r in (Some a :: r', n)
-      | None, QSel _ _ _ _ _ _ _ _ _ _ _ _ _ _ =>
-          let (r', n) := name_joins base (S own) r in (Some ("sq" ++ nat_to_string own) :: r', n)
-      | None, _ => let (r', n) := name_joins base own r in (None :: r', n)
+      match qalias x with
+      | Some a => let (r', n) := name_joins base (a :: taken) own r in (Some a :: r', n)
+      | None =>
+          let nm := "sq" ++ nat_to_string own in
+          let (r', n) := name_joins base (nm :: taken) (S own) r in (Some nm :: r', n)
       end
   | (_, SrcT t, _) :: r =>
-      let (r', n) := name_joins base own r in
-      ((match talias t with
-        | None => if existsb (tref_eqb t) base then Some (tname t ++ "2") else None
-        | Some a => Some a end) :: r', n)
-  | _ :: r => let (r', n) := name_joins base own r in (None :: r', n)
+      let eff := match talias t with
+                 | None => if existsb (tref_eqb t) base then Some (first_free (tname t) taken) else None
+                 | Some a => Some a end in
+      let nm := match eff with Some a => a | None => tname t end in
+      let (r', n) := name_joins base (nm :: taken) own r in (eff :: r', n)
+  | (_, SrcA nm, _) :: r => let (r', n) := name_joins base (nm :: taken) own r in (None :: r', n)
   end.
 End Naming.
 
@@ -158,7 +173,7 @@ Fixpoint sub_count (x : query) : nat :=
           match l with
           | [] => own
           | (_, SrcQ y, _) :: r =>
-              (match qalias y, y with None, QSel _ _ _ _ _ _ _ _ _ _ _ _ _ _ => cj (S own) r | _, _ => cj own r end)
+              (match qalias y with None => cj (S own) r | Some _ => cj own r end)
           | _ :: r => cj own r end in
       cj (cf 0 from) joins
   | _ => 0
@@ -173,6 +188,18 @@ Definition src_ref (s : source) (eff : option string) : tref :=
   end.
 Definition base_tables (l : list source) : list tref :=
   flat_map (fun s => match s with SrcT t => [t] | _ => [] end) l.
+(* the names the sources carry in the statement (alias, else table name; the tag of a sub-query; the WITH name) *)
+Definition tref_name (t : tref) : string := match talias t with Some a => a | None => tname t end.
+Fixpoint src_names (l : list source) (ns : list (option string)) : list string :=
+  match l with
+  | [] => []
+  | s :: r =>
+      let eff := hd None ns in
+      (match s with
+       | SrcT t => [match eff with Some a => a | None => tref_name t end]
+       | SrcQ _ => match eff with Some a => [a] | None => [] end
+       | SrcA n => [n] end) ++ src_names r (tl ns)
+  end.
 Fixpoint src_refs (l : list source) (ns : list (option string)) : list tref :=
   match l, ns with
   | s :: r, n :: rn => src_ref s n :: src_refs r rn
@@ -256,20 +283,24 @@ Fixpoint item_tables (i : item) : list (option tref) :=
 Definition ctx_item (k : kctx) (walias subquery : bool) (wns : bool) : ctx :=
   set_wn (set_subq (set_wa (kc k) walias) subquery) wns.
 
-(* Function arguments: only quote_char, dialect, with_namespace survive; the rest is absent *)
-Definition fk (k : kctx) : kctx := mk_k (fctx (kc k)) true true.
+(* Function arguments: quote_char, dialect, with_namespace and the alias / literal conventions (also groupby_alias and
+   the sub-query alias quote) are handed on; the positional flags are not *)
+Definition fk (k : kctx) : kctx := with_c k (fctx (kc k)).
 
 Definition page_tail (c : cls) (kd : kind) (l o : option Z) : string := render_page c kd (pg l o).
 
 Definition opt_bind {A} (o : option A) (f : A -> res string) : res string :=
   match o with None => Ok "" | Some a => f a end.
 
-Definition nselects (x : query) : nat :=
-  match x with QSel _ _ _ sels _ _ _ _ _ _ _ _ _ _ => List.length sels | _ => 0 end.
+(* len(x._selects); a set operation answers for its base query (_SetOperation._selects) *)
+Fixpoint nselects (x : query) : nat :=
+  match x with
+  | QSel _ _ _ sels _ _ _ _ _ _ _ _ _ _ => List.length sels
+  | QSet b _ _ _ _ _ => nselects b
+  | _ => 0 end.
 Definition is_builder (x : query) : bool := match x with QSet _ _ _ _ _ _ => false | _ => true end.
 Definition item_alias (y : item) : option string :=
   match y with IT t => term_alias t | ISub y' => qalias y' | IFunc _ _ a => a | _ => None end.
-Definition qalias_quote (c : cls) : option string := match cls_qaq c with None => cls_aq c | Some qa => Some qa end.
 Definition jprefix (h : jhow) (cnd : jcond) : string :=
   let jt := match cnd with JCrossCond => "CROSS" | _ => jhow_text h end in
   match jt with EmptyString => "" | _ => jt ++ " " end.
@@ -309,7 +340,7 @@ with rquery (kin : kctx) (walias subquery : bool) (ali : option string) (x : que
   | QSel c withs distinct selects from joins wheres havings groupbys orderbys l o fu _ =>
       let k := defaults c kin in
       let (fnames, n1) := name_from sub_count 0 from in
-      let (jnames, _) := name_joins (base_tables from) n1 joins in
+      let (jnames, _) := name_joins (base_tables from) (src_names from fnames ++ map fst withs) n1 joins in
       let srcs := (src_refs from fnames ++ src_refs (map (fun j => snd (fst j)) joins) jnames)%list in
       let in_scope (tb : tref) := existsb (tref_eqb tb) srcs in
       let foreign := existsb (fun o => match o with Some tb => negb (in_scope (resolve_tref srcs tb)) | None => false end)
@@ -362,8 +393,7 @@ with rquery (kin : kctx) (walias subquery : bool) (ali : option string) (x : que
                              match l with [] => Ok [] | y :: r =>
                                a <- (match (if k_gba k then alias_ref y else None) with
                                      | Some a => Ok (fq (or_ostr (aq base) (q base)) a)
-                                     (* _group_sql consumes groupby_alias as a named parameter: a sub-query below it sees the default *)
-                                     | None => ritem (mk_k (kc kk) (k_abs kk) true) srcs (ci false clause_subq_groupby) y end) ;;
+                                     | None => ritem kk srcs (ci false clause_subq_groupby) y end) ;;
                                rest <- go r ;; Ok (a :: rest) end) groupbys ;;
                     Ok (" GROUP BY " ++ join "," gs) end) ;;
       hv <- opt_bind havings (fun i => a <- ritem kk srcs (ci false clause_subq_having) i ;; Ok (" HAVING " ++ a)) ;;
@@ -382,7 +412,7 @@ with rquery (kin : kctx) (walias subquery : bool) (ali : option string) (x : que
                   ++ (match js with [] => "" | _ => " " ++ join " " js end)
                   ++ wh ++ gb ++ hv ++ ob ++ page_tail c KSelect l o ++ (if fu then " FOR UPDATE" else "") in
       let body := paren subquery body in
-      Ok (if walias then fmt_alias body ali (q base) (qalias_quote c) (askw base) else body)
+      Ok (if walias then fmt_alias body ali (q base) (k_qaq k) (askw base) else body)
       end
   | QIns c into columns rows sel replace _ =>
       let k := defaults c kin in
@@ -399,7 +429,7 @@ with rquery (kin : kctx) (walias subquery : bool) (ali : option string) (x : que
                    match l with [] => Ok [] | row :: r =>
                      vs <- (fix gov (l2 : list item) : res (list string) :=
                               match l2 with [] => Ok [] | y :: r2 =>
-                                a <- ritem kk [] (set_subq (set_wa base true) true) y ;; rest <- gov r2 ;; Ok (a :: rest) end) row ;;
+                                a <- ritem kk [] (set_subq (set_wa base false) true) y ;; rest <- gov r2 ;; Ok (a :: rest) end) row ;;
                      rest <- go r ;; Ok (join "," vs :: rest) end) rows ;;
           Ok (head ++ cols ++ " VALUES (" ++ join "),(" rs ++ ")")
       | [], Some y =>
@@ -408,13 +438,13 @@ with rquery (kin : kctx) (walias subquery : bool) (ali : option string) (x : que
           | EmptyString => Ok ""
           | _ =>
             let body := paren subquery (head ++ cols ++ " " ++ s) in
-            Ok (if walias then fmt_alias body ali (q base) (qalias_quote c) (askw base) else body)
+            Ok (if walias then fmt_alias body ali (q base) (k_qaq k) (askw base) else body)
           end
       end
   | QUpd c tbl sets from joins wheres l =>
       let k := defaults c kin in
       let (fnames, n1) := name_from sub_count 0 from in
-      let (jnames, _) := name_joins (tbl :: base_tables from) n1 joins in
+      let (jnames, _) := name_joins (tbl :: base_tables from) (tref_name tbl :: src_names from fnames) n1 joins in
       let srcs := (src_refs from fnames ++ src_refs (map (fun j => snd (fst j)) joins) jnames)%list in
       let in_scope (tb : tref) := existsb (tref_eqb tb) (tbl :: srcs) in
       let foreign := existsb (fun o => match o with Some tb => negb (in_scope (resolve_tref srcs tb)) | None => false end)
@@ -488,15 +518,21 @@ with rquery (kin : kctx) (walias subquery : bool) (ali : option string) (x : que
   | QSet base ops orderbys l o _ =>
       let bc := match base with QSel c _ _ _ _ _ _ _ _ _ _ _ _ _ => c | QIns c _ _ _ _ _ _ => c | QUpd c _ _ _ _ _ _ => c
                               | QDel c _ _ => c | QSet _ _ _ _ _ _ => CQuery end in
+      (* _SetOperation.get_sql: every default comes from the base query's class (_set_kwargs_defaults) *)
+      let k := defaults bc kin in
       let wrap := cls_wrap bc in
-      b <- rquery kin false wrap (qalias base) base ;;
+      b <- rquery k false wrap (qalias base) base ;;
       rest <- (fix go (l2 : list (setop * query)) : res (list string) :=
                  match l2 with [] => Ok [] | (so, y) :: r =>
-                   a <- rquery kin false wrap (qalias y) y ;;
+                   a0 <- rquery k false wrap (qalias y) y ;;
+                   (* operands are not parenthesised: a nested set operation keeps its grouping as a derived table *)
+                   let a := match y with
+                            | QSet _ _ _ _ _ _ => if wrap then a0 else "SELECT * FROM (" ++ a0 ++ ")"
+                            | _ => a0 end in
                    (if Nat.eqb (nselects base) (nselects y) then
                       rs <- go r ;; Ok ((" " ++ setop_text so ++ " " ++ a) :: rs)
                     else Err "SetOperationException") end) ops ;;
-      let c := kc kin in
+      let c := kc k in
       let selected_aliases := match base with
                               | QSel _ _ _ sels _ _ _ _ _ _ _ _ _ _ => map item_alias sels
                               | _ => [] end in
@@ -506,14 +542,15 @@ with rquery (kin : kctx) (walias subquery : bool) (ali : option string) (x : que
                              match l2 with [] => Ok [] | (t, d) :: r =>
                                a <- (match term_alias t with
                                      | Some a => if truthy_ostr (Some a) && existsb (option_eqb String.eqb (Some a)) selected_aliases
-                                                 then Ok (fq (q c) a) else render (set_wa c false) t
+                                                 then Ok (fq (or_ostr (aq c) (q c)) a) else render (set_wa c false) t
                                      | None => render (set_wa c false) t end) ;;
                                rs <- go r ;;
                                Ok ((match d with Some d' => a ++ " " ++ order_text d' | None => a end) :: rs) end) orderbys ;;
                     Ok (" ORDER BY " ++ join "," os) end) ;;
-      let body := b ++ sconcat rest ++ ob ++ page_tail bc KSetOp l o in
+      (* the limit/offset are written by a fresh builder of the base query's class *)
+      let body := b ++ sconcat rest ++ ob ++ page_tail bc KSelect l o in
       let body := paren subquery body in
-      Ok (if walias then fmt_alias body ali (q c) (aq c) (askw c) else body)
+      Ok (if walias then fmt_alias body ali (q c) (k_qaq k) (askw c) else body)
   end.
 
 (* str(q) *)
@@ -523,13 +560,4 @@ Definition top_cls (x : query) : cls :=
   | QSet (QSel c _ _ _ _ _ _ _ _ _ _ _ _ _) _ _ _ _ _ => c
   | QSet _ _ _ _ _ _ => CQuery
   end.
-Definition str_query (x : query) : res string :=
-  match x with
-  | QSet _ _ _ _ _ _ =>
-      (* _SetOperation.__str__ = get_sql(): dialect and quote_char default from the base query, everything else
-         from each operand's own class *)
-      let c := top_cls x in
-      rquery (mk_k {| q := cls_q c; sq := Some "'"; aq := None; askw := false; dia := cls_dia c; wa := false; wn := false;
-                      subq := false; subc := false |} true true) false false (qalias x) x
-  | _ => rquery (top_ctx (top_cls x)) false false (qalias x) x
-  end.
+Definition str_query (x : query) : res string := rquery (top_ctx (top_cls x)) false false (qalias x) x.
